@@ -48,7 +48,8 @@ Record st := St {
 Record env := Env {
   e_prefix : str;                      (* msg.prefix *)
   e_lk : list (str * option Z);        (* users.getUserId(x) answers recorded during the command *)
-  e_nicks : list (str * str) }.        (* irc.state.nicksToHostmasks *)
+  e_nicks : list (str * str);          (* irc.state.nicksToHostmasks *)
+  e_chan : option str }.               (* msg.channel: None = private message, Some ch = said in channel ch *)
 
 Definition aid (a : acct) : Z := C16.Model.id_of (a_u a).
 Definition caps (a : acct) : list str := C16.Model.u_caps (a_u a).
@@ -530,12 +531,17 @@ Definition d_aignremove (s : st) E args :=
 
 (* the 'op' converter: getChannel + checkChannelCapability(..., 'op') *)
 Definition conv_op (s : st) (E : env) (args : list str) : option (str * list str) :=
-  match args with
-  | ch :: r =>
-      if C03.Model.isChannel ch then
-        if holds s E (ch ++ [COMMA] ++ OP) then Some (ch, r) else None
-      else None
-  | [] => None
+  (* getChannel: the first argument if it is a channel name, else the channel the message was said in *)
+  let pick := match args with
+              | ch :: r => if C03.Model.isChannel ch then Some (ch, r)
+                           else option_map (fun c => (c, args)) (e_chan E)
+              | [] => option_map (fun c => (c, args)) (e_chan E)
+              end in
+  match pick with
+  | Some (ch, r) =>
+      (* checkChannelCapability: makeChannelCapability asserts isChannel; checkCapability(msg.prefix, "<ch>,op") *)
+      if C03.Model.isChannel ch && holds s E (ch ++ [COMMA] ++ OP) then Some (ch, r) else None
+  | None => None                                  (* callbacks.ArgumentError *)
   end.
 
 Definition chan_of (s : st) (ch : str) : C03.Model.chan :=
@@ -604,7 +610,16 @@ Definition d_ccap (k : cmd) s E args :=
       end
   end.
 
+(* the 'private' converter: refused (errorRequiresPrivacy) when the message was said in a channel *)
+Definition needs_private (k : cmd) : bool :=
+  match k with
+  | URegister | UUnregister | UChangename | UIdentify | UHostAdd | UHostRemove | USetPassword | USetSecure => true
+  | _ => false
+  end.
+Definition in_private (E : env) : bool := match e_chan E with None => true | Some _ => false end.
+
 Definition decide (k : cmd) (s : st) (E : env) (args : list str) : effect :=
+  if needs_private k && negb (in_private E) then ENone else
   match k with
   | URegister => d_register s E args
   | UUnregister => d_unregister s E args
@@ -719,8 +734,20 @@ Definition gate_names (ws : list str) : list str := last ws [] :: prefixes [] ws
 
 (* Commands._callCommand: refused when the caller holds the anticapability of one of the names
    (this is the 'admin' gate: -admin is a default capability) *)
+(* callbacks.checkCommandCapability(msg, cb, n): refused when the caller holds -n (or, in a channel, "<ch>,-n"), or when
+   nothing allows n: not (capabilities.default [and the channel's defaultAllow] or holds n [or "<ch>,n"]) *)
+Definition name_blocked (s : st) (E : env) (n : str) : bool :=
+  holds s E (DASH :: n)
+  || match e_chan E with
+     | None => negb gen.T02.DEFAULT_FLAG && negb (holds s E n)
+     | Some ch =>
+         negb (C03.Model.isChannel ch)        (* assert in makeChannelCapability: the command is not dispatched *)
+         || holds s E (ch ++ [COMMA] ++ DASH :: n)
+         || (negb (gen.T02.DEFAULT_FLAG && C03.Model.ch_default (chan_of s ch))
+             && negb (holds s E n || holds s E (ch ++ [COMMA] ++ n)))
+     end.
 Definition gate_blocked (s : st) (E : env) (ws : list str) : bool :=
-  existsb (fun n => holds s E (DASH :: n)) (gate_names ws).
+  existsb (name_blocked s E) (gate_names ws).
 
 (* ircdb.checkIgnored(msg.prefix) in Owner.doPrivmsg *)
 Definition ignored (s : st) (E : env) : bool :=
@@ -782,13 +809,17 @@ Definition grantb_admin (s : st) (E : env) (n craw : str) (z : Z) (c : str) : bo
   | None => false
   end.
 
-Definition grantb_chan (s : st) (E : env) (ch n craw : str) (z : Z) (c : str) : bool :=
-  negb (gate_blocked s E chan_add_words) && C03.Model.isChannel ch && holds s E (ch ++ [COMMA] ++ OP) &&
-  match conv_other s E n, C16.Model.split_ws craw with
-  | Some u, [w] =>
-      Z.eqb (aid u) z && seq_eqb c (C03.Model.fold (ch ++ [COMMA] ++ w))
-      && is_ok (C03.Model.ucs_add (caps u) (ch ++ [COMMA] ++ w))
-  | _, _ => false
+Definition grantb_chan (s : st) (E : env) (args : list str) (z : Z) (c : str) : bool :=
+  negb (gate_blocked s E chan_add_words) &&
+  match conv_op s E args with
+  | Some (ch, [n; craw]) =>
+      match conv_other s E n, C16.Model.split_ws craw with
+      | Some u, [w] =>
+          Z.eqb (aid u) z && seq_eqb c (C03.Model.fold (ch ++ [COMMA] ++ w))
+          && is_ok (C03.Model.ucs_add (caps u) (ch ++ [COMMA] ++ w))
+      | _, _ => false
+      end
+  | _ => false
   end.
 
 Definition grantb (s : st) (E : env) (text : str) (z : Z) (c : str) : bool :=
@@ -801,8 +832,8 @@ Definition grantb (s : st) (E : env) (text : str) (z : Z) (c : str) : bool :=
       | Some _ => false
       | None =>
           match strip_words chan_add_words toks with
-          | Some [ch; n; craw] => grantb_chan s E ch n craw z c
-          | _ => false
+          | Some args => grantb_chan s E args z c
+          | None => false
           end
       end
   end.
@@ -881,7 +912,8 @@ Definition hosts_dom (s : st) : bool := forallb (fun a => hosts_ok (a_u a)) (s_u
 Definition gEnv (v : value) : env :=
   Env (gS (nth_v 0 v))
       (map (fun e => (gS (nth_v 0 e), gO gZ (nth_v 1 e))) (gL (nth_v 1 v)))
-      (map (fun e => (gS (nth_v 0 e), gS (nth_v 1 e))) (gL (nth_v 2 v))).
+      (map (fun e => (gS (nth_v 0 e), gS (nth_v 1 e))) (gL (nth_v 2 v)))
+      (gO gS (nth_v 3 v)).
 Definition gOp (v : value) : op :=
   match gN (nth_v 0 v) with
   | 0 => OCmd (gEnv (nth_v 1 v)) (gS (nth_v 2 v))
